@@ -12,6 +12,7 @@ import (
 // profT bounds the exploration of one configuration.
 type profT struct {
 	Budget     int  `json:"deviation_budget"`   // non-default state-changing events per trace
+	OrderCost  int  `json:"order_deviation_cost,omitempty"` // cost of a delivery-order/batching deviation (default 1); flush/restart/crash/header splits cost 1
 	Tail       int  `json:"exhaustive_tail"`    // all delivery orders once at most this many trie nodes are missing
 	Sub        bool `json:"subtree_batches"`    // multi-node batches: subtree answers, all-unknown batches, good+bad batch
 	SubTrunc   bool `json:"truncated_subtrees"` // subtree answers cut after 3 nodes
@@ -55,7 +56,8 @@ type job struct {
 	ci     int
 	prefix []Ev
 	budget int
-	used   int
+	used   int // deviation cost spent
+	devs   int // non-default events in the prefix (queue priority: simplest traces first)
 }
 
 // caseRec is the replayable description of one trace.
@@ -95,10 +97,10 @@ func newExplorer(r *vk.Run, st *statsT) *explorer {
 
 func (x *explorer) push(j job) {
 	x.mu.Lock()
-	for len(x.queues) <= j.used {
+	for len(x.queues) <= j.devs {
 		x.queues = append(x.queues, nil)
 	}
-	x.queues[j.used] = append(x.queues[j.used], j)
+	x.queues[j.devs] = append(x.queues[j.devs], j)
 	x.mu.Unlock()
 	x.cond.Signal()
 }
@@ -203,7 +205,13 @@ func shortKey(s string) string {
 func (x *explorer) report(c *confT, r *runner, v *viol) {
 	x.st.violations.Inc()
 	x.st.outcome("violation:" + v.Oracle)
-	group := c.group() + "|" + v.Oracle
+	lastDev := ""
+	for _, e := range r.tr {
+		if !e.P && !e.D {
+			lastDev = e.K
+		}
+	}
+	group := c.group() + "|" + v.Oracle + "|" + lastDev
 	x.mu.Lock()
 	dup := x.seenV[group]
 	x.seenV[group] = true
@@ -339,7 +347,7 @@ func (x *explorer) runJob(j job) {
 			pf[len(base)] = a.e
 			x.st.forks.Inc()
 			x.st.outcome(fmt.Sprintf("fork:%s:cost%d:from-used%d", a.e.K, a.cost, j.used))
-			x.push(job{c: c, ci: j.ci, prefix: pf, budget: budget - a.cost, used: j.used + a.cost})
+			x.push(job{c: c, ci: j.ci, prefix: pf, budget: budget - a.cost, used: j.used + a.cost, devs: j.devs + 1})
 		}
 		v = r.do(*def)
 		x.st.transitions.Inc()
